@@ -191,7 +191,10 @@ Section Agreement.
   Qed.
 
   Theorem key_agreement :
-    exists q1 r1 pend d1 q2 r2 half d2 q3 r4 act d3 sent e,
+    exists q1 r1 pend d1 q2 r2 half d2 q3 r4 act d3 sent e k1 k2 k3,
+      (* the three datagrams the console transmits carry exactly the payloads the BMC processes *)
+      payload_packet 0x10 q1 = Ok k1 /\ payload_packet 0x12 q2 = Ok k2 /\ payload_packet 0x14 q3 = Ok k3 /\
+      sent = [k1; k2; k3] /\
       ser_opensessionreq (open_request o s) [] = Ok q1 /\
       Bmc.open_session supported q1 new_id = Some (r1, Some pend) /\ payload_packet 0x11 r1 = Ok d1 /\
       ser_rakp1 m1 [] = Ok q2 /\
@@ -266,7 +269,7 @@ Section Agreement.
     assert (I0 : (su_integ s =? 0) = false) by (destruct Hinteg as [<-|[<-|[<-|[]]]]; reflexivity).
     set (e := {| es_local_id := 1; es_remote_id := new_id; es_sik := sik0; es_k1 := hmac_alg a sik0 (k_const 1);
                  es_k2 := hmac_alg a sik0 (k_const 2); es_suite := s; es_aes_key := aes_key_of (hmac_alg a sik0 (k_const 2)) |}).
-    exists q1, r1, pend, d1, q2, r2, half, d2, q3, r4, act, d3, ([k1] ++ [k2] ++ [k3]), e.
+    exists q1, r1, pend, d1, q2, r2, half, d2, q3, r4, act, d3, ([k1] ++ [k2] ++ [k3]), e, k1, k2, k3.
     repeat split; auto.
     unfold new_session. rewrite Q1, (exchange_one _ _ _ _ _ _ K1 V1), R1.
     cbn [os_tag os_status os_auth os_integ os_conf ap_alg rsp0 N.eqb negb].
